@@ -146,7 +146,11 @@ def build(tier):
         gf = '<S: BaseFloat>'
         h.root('swap_columns__' + m, gf + '(a: &mut %s)' % Tm, 'a.swap_columns(0, 1)', ('post', {'a0': swapped(a, n, 0, 1, 'cols')}), rule='K1 copy provenance')
         h.root('swap_rows__' + m, gf + '(a: &mut %s)' % Tm, 'a.swap_rows(0, 1)', ('post', {'a0': swapped(a, n, 0, 1, 'rows')}), rule='K1 copy provenance')
-        h.root('swap_elements__' + m, gf + '(a: &mut %s)' % Tm, 'Matrix::swap_elements(a, (0, 1), (1, 0))', ('post', {'a0': swapped(a, n, (0, 1), (1, 0), 'elems')}), rule='K1 copy provenance')
+        cells = [(c_, r_) for c_ in range(n) for r_ in range(n)]
+        for p_ in cells:
+            for q_ in cells:
+                h.root('swap_elements__%s__%d%d_%d%d' % (m, p_[0], p_[1], q_[0], q_[1]), gf + '(a: &mut %s)' % Tm, 'Matrix::swap_elements(a, (%d, %d), (%d, %d))' % (p_[0], p_[1], q_[0], q_[1]),
+                       ('post', {'a0': swapped(a, n, p_, q_, 'elems')}), rule='K1 copy provenance')
         if n == 4:
             h.root('determinant__' + m, gf + '(a: &%s) -> S' % Tm, 'a.determinant()', ('value', A.det(a)))
         h.root('as_ptr__' + m, '<S: BaseFloat>(a: &%s) -> *const S' % Tm, 'Matrix::as_ptr(a)', ('ref', 0, 1, [a[0][0]]))
